@@ -217,6 +217,13 @@ def long_strings():
     out.append((T('BITSTRING'), '10' * 4000))
     out.append((T('UTF8String'), 'a' * 1500))
     out.append((T('BMPString'), '日' * 600))
+    # tagged long strings: CER segments them (1000 octets) inside the tags -- value-object and Python-value path alike
+    out.append((T('OCTETSTRING', [('I', CTX, 2)]), b'x' * 1100))
+    out.append((T('BITSTRING', [('E', CTX, 2)]), '1' * 8100))
+    out.append((T('BITSTRING', [('I', CTX, 2)]), '10' * 4100))
+    out.append((T('UTF8String', [('E', CTX, 2)]), 'y' * 1500))
+    out.append((T('SEQUENCE', [], fields=[('s', T('OCTETSTRING', [('E', APP, 1)]), 'req'), ('b', T('BITSTRING', [('I', CTX, 0)]), 'opt')]),
+                {'s': b'z' * 2001, 'b': '1' * 8008}))
     return out
 
 
